@@ -3,6 +3,7 @@ package sx
 // Havoc stubs with event recording for database/sql (style C).
 
 import (
+	"os"
 	"fmt"
 	"go/types"
 	"strings"
@@ -35,6 +36,9 @@ func normSQL(q value) string {
 
 func event(format string, a ...any) {
 	X.Events = append(X.Events, fmt.Sprintf(format, a...))
+	if os.Getenv("GOSYM_EVENTS") != "" {
+		fmt.Printf("  [event thr=%d] %s\n", X.cur, fmt.Sprintf(format, a...))
+	}
 }
 
 // nondetErr returns nil or a generic error, recording the choice.
@@ -67,6 +71,7 @@ func init() {
 	}
 	symExternals["(*database/sql.Conn).Close"] = func(fr *frame, args []value) value {
 		event("ConnClose")
+		X.releaseConn()
 		return iface{}
 	}
 	exec := func(fr *frame, args []value) value {
@@ -231,12 +236,18 @@ func init() {
 		return tuple{iface{t: rt.Type("SQLResult").Type(), v: structure{r[0]}}, r[1]}
 	}
 	symExternals["(*database/sql.Conn).ExecContext"] = modelExec
-	symExternals["(*database/sql.DB).ExecContext"] = modelExec
+	symExternals["(*database/sql.DB).ExecContext"] = func(fr *frame, args []value) value {
+		// a statement on the *sql.DB takes the pooled connection for its own duration
+		X.acquireConn()
+		defer X.releaseConn()
+		return modelExec(fr, args)
+	}
 	stubConn := symExternals["(*database/sql.DB).Conn"]
 	symExternals["(*database/sql.DB).Conn"] = func(fr *frame, args []value) value {
 		if !X.SQLModel {
 			return stubConn(fr, args)
 		}
+		X.acquireConn()
 		return tuple{zeroPtr(fr.i, "database/sql", "Conn"), iface{}}
 	}
 	stubQR := symExternals["(*database/sql.Conn).QueryRowContext"]
@@ -245,6 +256,7 @@ func init() {
 			return stubQR(fr, args)
 		}
 		r := call(fr.i, fr, 0, sqlFn(fr, "QueryRow"), []value{args[2], args[3]}).(tuple)
+		event("QueryRow:%s", normSQL(args[2]))
 		row := zeroPtr(fr.i, "database/sql", "Row").(*value)
 		if X.sqlRows == nil {
 			X.sqlRows = map[*value]tuple{}
@@ -253,7 +265,11 @@ func init() {
 		return row
 	}
 	symExternals["(*database/sql.Conn).QueryRowContext"] = modelQR
-	symExternals["(*database/sql.DB).QueryRowContext"] = modelQR
+	symExternals["(*database/sql.DB).QueryRowContext"] = func(fr *frame, args []value) value {
+		X.acquireConn()
+		defer X.releaseConn()
+		return modelQR(fr, args)
+	}
 	stubScan := symExternals["(*database/sql.Row).Scan"]
 	symExternals["(*database/sql.Row).Scan"] = func(fr *frame, args []value) value {
 		if !X.SQLModel {
@@ -275,8 +291,10 @@ func init() {
 			f = X.decide(v.t)
 		}
 		if !f {
+			event("RowScan:no-rows")
 			return fr.i.globalErr("database/sql", "ErrNoRows")
 		}
+		event("RowScan:row")
 		return call(fr.i, fr, 0, sqlFn(fr, "ScanInto"), []value{args[1], r[0]})
 	}
 }
@@ -321,7 +339,12 @@ func init() {
 		return tuple{rows, iface{}}
 	}
 	symExternals["(*database/sql.Conn).QueryContext"] = query
-	symExternals["(*database/sql.DB).QueryContext"] = query
+	symExternals["(*database/sql.DB).QueryContext"] = func(fr *frame, args []value) value {
+		// (the rows are materialised by the model at once, so the connection is needed for the query only)
+		X.acquireConn()
+		defer X.releaseConn()
+		return query(fr, args)
+	}
 	cur := func(args []value) *sqlCursor {
 		c := X.sqlCursors[args[0].(*value)]
 		if c == nil {
